@@ -42,6 +42,7 @@ AllTracked(o) == UNION { Pids(o.w[i]) : i \in WIdx(o) }
 Decode(ws)   == IF ws % 128 # 0 THEN -(ws % 128) ELSE (ws \div 256) % 256
 
 EnvKinds   == {"tick", "req", "die", "extkill", "dsig", "fork", "probe", "end", "boot", "spawnfault"}
+InjKinds   == {"die", "extkill", "sigdeath", "fork"}     \* what the environment may do in the middle of a callback
 StimKinds  == {"die", "extkill", "sigdeath", "dsig", "fork", "boot", "spawnfail", "block", "exc"}
 ROCmds     == {"status", "list", "numprocesses", "numwatchers", "options", "stats", "dstats", "get",
                "globaloptions", "listsockets"}
@@ -283,6 +284,7 @@ Upd(g, o, ln, o2) ==
                !.pendKill = IF ln.k = "hook" /\ ln.x = "before_signal" /\ g.ctx.on /\ g.ctx.cmd = "signal" /\ g.ctx.signum = SIGKILL
                             THEN ln.p
                             ELSE IF isEv /\ (ln.x = "hook_success:before_signal" \/ ln.x = "hook_failure:before_signal") THEN @
+                            ELSE IF ln.k \in InjKinds THEN @      \* (the environment acting in between is not the daemon's next step)
                             ELSE 0,
                !.lastSig = lastSig1,
                !.term = term1,
@@ -543,7 +545,8 @@ C14_startgate(g, o, o2) ==
 C14_siggate(g, ln) == (ln.k = "signal" /\ ln.p \in g.veto) => ln.a = SIGKILL
 \* SIGKILL is always sent, whatever before_signal says
 C14_killsent(g, ln) ==
-   (g.pendKill # 0 /\ ~(ln.k = "ev" /\ (ln.x = "hook_success:before_signal" \/ ln.x = "hook_failure:before_signal")))
+   (g.pendKill # 0 /\ ln.k \notin InjKinds
+      /\ ~(ln.k = "ev" /\ (ln.x = "hook_success:before_signal" \/ ln.x = "hook_failure:before_signal")))
      => ln.k = "signal" /\ ln.p = g.pendKill /\ ln.a = SIGKILL
 C14_events(g, ln) ==
    /\ (g.hookOpen # "" /\ ln.k # "exc") =>
